@@ -415,8 +415,10 @@ E_VISIT = ("h_visit", ["_mi_heap_area_visit_blocks", "_mi_heap_area_init", "mi_g
 
 
 def c01():
-    obs = page_obs("C01", [E_MALLOC, E_FREE, E_COLLECT, E_EXTEND], sizes=((32, 5), (48, 4)), flavours=("release",))
-    obs += page_obs("C01", [E_MALLOC], sizes=((32, 3),), flavours=("secure",), timeout=1200)
+    obs = page_obs("C01", [E_MALLOC, E_FREE, E_COLLECT, E_EXTEND], sizes=((32, 5),), flavours=("release",))
+    obs += page_obs("C01", [E_MALLOC, E_FREE], sizes=((48, 4),), flavours=("release",))
+    obs += page_obs("C01", [E_COLLECT, E_EXTEND], sizes=((48, 4),), flavours=("release",), tier="thorough", timeout=1800)
+    obs += page_obs("C01", [E_MALLOC], sizes=((32, 3),), flavours=("secure",), tier="thorough", timeout=1800)   # (quick tier: the same obligation runs under C17)
     obs += page_obs("C01", [E_FREE, E_COLLECT], sizes=((32, 3),), flavours=("secure",), tier="thorough", timeout=3600, std_checks=False)
     obs += page_obs("C01", [E_MALLOC, E_FREE, E_COLLECT], sizes=((48, 3),), flavours=("debug",), tier="thorough", timeout=3000)
     obs += page_obs("C01", [E_MALLOC, E_FREE, E_COLLECT, E_EXTEND], sizes=((16, 6), (80, 4), (1024, 3)), flavours=("release", "secure"), tier="thorough")
